@@ -7,7 +7,7 @@
 //!  F1  every conflict-free mapping that touches <= K of the 11 boundary code points P, each mapped
 //!      to one of 6 glyph ids G(cp)                      (K = 5 quick, 7 thorough)
 //!      - lookups on P ∪ P±1 ∪ {0, 0xFFFF, 0x110000}; for mappings touching <= Kb points additionally
-//!        every BMP code point                              (Kb = 2 quick, 4 thorough)
+//!        every BMP code point                              (Kb = 2 quick, 3 thorough)
 //!  F2  dense runs of length 1..=300 at 3 base positions with glyph strides {+1, -1, +1 with one break
 //!      at every position}
 //!  F3  every sequence of <= 3 blocks (type in {ordered, reversed, stride-2}, length 1..=Lb) joined
@@ -320,9 +320,17 @@ fn check_compiled(run: &Run, m: &Mapping, full_bmp: bool, font_bytes: &[u8], l: 
     let mut h = Fnv::new();
     let mut c4: Vec<rc::Cmap4> = vec![];
     let mut c12: Vec<rc::Cmap12> = vec![];
+    // sub-tables that several encoding records share byte for byte are looked up once
+    let mut seen_offsets: Vec<u32> = vec![];
     for rec in cmap.encoding_records() {
         h.u64(rec.platform_id() as u64);
         h.u64(rec.encoding_id() as u64);
+        let off = rec.subtable_offset().to_u32();
+        if seen_offsets.contains(&off) {
+            h.u64(off as u64);
+            continue;
+        }
+        seen_offsets.push(off);
         match rec.subtable(cmap.offset_data()) {
             Ok(rc::CmapSubtable::Format4(t)) => {
                 h.str("f4");
@@ -364,7 +372,13 @@ fn check_compiled(run: &Run, m: &Mapping, full_bmp: bool, font_bytes: &[u8], l: 
     }
 
     // ---- lookups -------------------------------------------------------
+    // at most 3 reports per mapping: a broken table fails thousands of look-ups in the same way
+    let budget = std::cell::Cell::new(3u32);
     let report = |api: &str, c: u32, exp: Option<u16>, got: Option<GlyphId>| {
+        if budget.get() == 0 {
+            return;
+        }
+        budget.set(budget.get() - 1);
         run.violation(
             &lookup_identity(api, exp, c),
             &format!(
@@ -517,7 +531,7 @@ fn subsets_up_to(k: usize) -> Vec<Vec<usize>> {
 
 fn point_family(run: &Run) {
     let k = run.tier.pick(5usize, 7usize);
-    let kb = run.tier.pick(2usize, 4usize);
+    let kb = run.tier.pick(2usize, 3usize);
     run.bound("F1.code_points_P", json!(P.iter().map(|p| format!("{p:#x}")).collect::<Vec<_>>()));
     run.bound(
         "F1.glyph_ids_G",
